@@ -57,11 +57,12 @@ inline TA trimmed(const TA& A) { auto U = useful(A); TA r; for (auto& x : A.rule
 
 // Exact inclusion L(A) <= L(B): all reachable pairs (state of A, set of states of B reached by the
 // same tree), textbook bottom-up subset construction of B in lock-step with A.
-inline bool included(const TA& A, const TA& B) {
-  std::vector<size_t> bs; { auto s = B.states(); bs.assign(s.begin(), s.end()); }
+// all reachable pairs (q, S): q a state of A, S the set of states of B (as a bit mask over `bs`, the sorted states of B) reached by one common tree
+inline std::set<std::pair<size_t, uint64_t>> reachablePairsMask(const TA& A, const TA& B, std::vector<size_t>& bs) {
+  { auto s = B.states(); bs.assign(s.begin(), s.end()); }
   if (bs.size() > 62) throw std::runtime_error("ref::included: too many states");
   std::map<size_t, int> bidx; for (size_t i = 0; i < bs.size(); i++) bidx[bs[i]] = (int)i;
-  typedef uint64_t M; M bfin = 0; for (auto f : B.finals) bfin |= M(1) << bidx[f];
+  typedef uint64_t M;
   std::set<std::pair<size_t, M>> R; bool ch = true;
   std::vector<Rule> ar(A.rules.begin(), A.rules.end()), br(B.rules.begin(), B.rules.end());
   while (ch) {
@@ -80,8 +81,17 @@ inline bool included(const TA& A, const TA& B) {
       }
     }
   }
+  return R;
+}
+inline bool included(const TA& A, const TA& B) {
+  std::vector<size_t> bs; auto R = reachablePairsMask(A, B, bs); std::map<size_t, int> bidx; for (size_t i = 0; i < bs.size(); i++) bidx[bs[i]] = (int)i;
+  uint64_t bfin = 0; for (auto f : B.finals) bfin |= uint64_t(1) << bidx[f];
   for (auto& p : R) if (A.finals.count(p.first) && !(p.second & bfin)) return false;
   return true;
+}
+inline std::set<std::pair<size_t, std::set<size_t>>> reachablePairs(const TA& A, const TA& B) {
+  std::vector<size_t> bs; auto R = reachablePairsMask(A, B, bs); std::set<std::pair<size_t, std::set<size_t>>> out;
+  for (auto& p : R) { std::set<size_t> S; for (size_t i = 0; i < bs.size(); i++) if (p.second >> i & 1) S.insert(bs[i]); out.insert({p.first, S}); } return out;
 }
 inline bool equalLang(const TA& A, const TA& B) { return included(A, B) && included(B, A); }
 
